@@ -224,13 +224,13 @@ namespace
   std::string engine_string(World &w) { std::stringstream ss; ss << w.get_random_number_engine(); return ss.str(); }
   const int NPAIRS = 4;
   const int NOPS = 15;   // 0..7 pair queries (in,out)x4, 8: 2-D batched, 9: grains entry point, 10: construct W2, 11: query W2, 12: destroy W2,
-                         // 13: temperatures inside the second slab (mass conserving, spline of 9 points), 14: temperatures across the first slab (spline of 4 points)
+                         // 13: temperatures inside the second slab (mass conserving, spline of 5 points), 14: temperatures across the first slab (spline of 4 points)
   const char *PAIRN[NPAIRS] = {"continental-plate-west-edge", "mantle-layer-bottom", "slab-top-surface", "plume-rim"};
   std::string opname(int op)
   {
     if (op < 8) return std::string("W1.properties3d[T,c0,tag,vel] at ") + PAIRN[op/2] + (op % 2 ? "/outer-neighbour" : "/inner-neighbour");
     const char *n[] = {"W1.properties2d[vel,g12,T]", "W1.grains3d(0,3)", "construct W2 (spherical file across the dateline)", "W2.properties3d[T,c1,tag] at an aliased longitude", "destroy W2",
-                       "W1.temperature at 8 points in the second slab (mass conserving model with a 9-point spline)", "W1.temperature at 16 points across the first slab (mass conserving model with a 4-point spline)"
+                       "W1.temperature at 9 points in the second slab (mass conserving model with a 5-point spline)", "W1.temperature at 25 points across the first slab (mass conserving model with a 4-point spline)"
                       };
     return n[op-8];
   }
@@ -266,13 +266,14 @@ namespace
     if (op == 13)
       {
         std::vector<double> t;
-        for (double dx : {0.3e5, 0.6e5, 0.9e5, 1.2e5}) for (double d : {0.7e5, 1.3e5}) t.push_back(w1.temperature(query_point(false, -3.45e5 - dx, 3.5e5, d), d));
+        for (double dx : {0.9e5, 1.2e5, 1.4e5}) for (double d : {1.3e5, 1.6e5, 1.9e5}) t.push_back(w1.temperature(query_point(false, -3.45e5 - dx, 3.5e5, d), d));
         return t;
       }
     if (op == 14)
       {
         std::vector<double> t;
         for (int k = 0; k < 16; ++k) { const double d = 4e4 + 1.5e4*k; t.push_back(w1.temperature(query_point(false, 2.0e5, -1.2e5, d), d)); }
+        for (int k = 0; k < 9; ++k) { const double d = 1.6e5 + 0.5e4*k; t.push_back(w1.temperature(query_point(false, 2.0e5, -1.2e5, d), d)); }   // the lower edge of the thermal anomaly
         return t;
       }
     return w2->properties(point_w2(), 8e4, W2_REQ);
